@@ -190,6 +190,18 @@ def shownValue (N : Int) : Num → Rat
   | .frac q => q
   | .flt x => roundedAt (effDigits N) (Num.floatToRat x)
 
+/-- `reads_back_as(text)` (interpret.py, since fix 419b022) on the `stringify_result` text of a number: what the tokeniser makes of
+    that text — the NEAREST FLOAT of the shown decimal when the text has a decimal point, the shown decimal itself (exact) when
+    it has none (`5e-05`, `100000`), the value itself for ints and fractions -/
+def readsBack (N : Int) : Num → Rat
+  | .int n => (n : Rat)
+  | .frac q => q
+  | .flt x =>
+    let v := roundedAt (effDigits N) (Num.floatToRat x)
+    match precisionifyFloat N x with
+    | .ok t => if t.contains '.' then Num.floatToRat (Num.ratToFloat v) else v
+    | .error _ => v
+
 /-- `"{:.17g}".format(x)` for a float bound, `stringify_result(x)` for an exact one: the second rendering of an interval's
     bounds (interpret.py, interval branch of `stringify_result`, since fix d33389f) -/
 def stringifyNumFull (N : Int) : Num → Except Err Text
@@ -220,9 +232,9 @@ def stringify (names : List Text) (N : Int) (brackets : Bool) : DVal → Except 
     -- the recursive calls do NOT pass brackets_for_frac on
     let x ← stringifyNum N false a
     let y ← stringifyNum N false b
-    -- fix d33389f: in the text that is going to be parsed again, a float bound whose rounding carried it across the other
-    -- bound is given all its digits (`Fraction(a) > Fraction(b)` on the two texts)
-    if brackets && decide (shownValue N a > shownValue N b) then do
+    -- fixes d33389f, 419b022: in the text that is going to be parsed again, a float bound whose rounding carried it across the
+    -- other bound is given all its digits (`reads_back_as(a) > reads_back_as(b)` on the two texts)
+    if brackets && decide (readsBack N a > readsBack N b) then do
       let x' ← stringifyNumFull N a
       let y' ← stringifyNumFull N b
       .ok ('[' :: x' ++ ',' :: ' ' :: y' ++ [']'])
